@@ -398,10 +398,15 @@ func runC15(c *eng.Ctx) {
 			if !ok || (b.Op != token.NEQ && b.Op != token.EQL) {
 				continue
 			}
+			// the returned count, possibly through locals (n := len(objs); objs := response.ConvertedObjects)
+			isLenOfConverted := func(e ast.Expr) bool {
+				cl := builtinCall(info, resolveLocal(info, f.Decl.Body, e), "len")
+				return cl != nil && eng.IsField(info, resolveLocal(info, f.Decl.Body, cl.Args[0]), converted)
+			}
 			var other ast.Expr
-			if isLenOf(b.X, converted) {
+			if isLenOfConverted(b.X) {
 				other = b.Y
-			} else if isLenOf(b.Y, converted) {
+			} else if isLenOfConverted(b.Y) {
 				other = b.X
 			} else {
 				continue
@@ -436,6 +441,30 @@ func runC15(c *eng.Ctx) {
 				}
 			}
 			r4.Check(okCap, construct, b.Pos(), "compared with the count captured before the handler call", "the object count is not compared with the number of requested objects captured before the handler ran")
+		}
+		// the answer that carries converted objects is given only when the counts were found equal
+		if found {
+			isLenConv := func(e ast.Expr) bool {
+				cl := builtinCall(info, resolveLocal(info, f.Decl.Body, e), "len")
+				return cl != nil && eng.IsField(info, resolveLocal(info, f.Decl.Body, cl.Args[0]), converted)
+			}
+			countsEqual := g.FactEdge(func(fc eng.Fact) bool {
+				x, y, eq, isEq := eng.EqAtom(fc)
+				return isEq && eq && (isLenConv(x) != isLenConv(y))
+			})
+			nAns := 0
+			okAns := true
+			for _, gn := range g.Nodes {
+				ret, isR := gn.Node.(*ast.ReturnStmt)
+				if !isR || len(ret.Results) != 2 || eng.IsNil(info, ret.Results[0]) {
+					continue
+				}
+				nAns++
+				if !g.OnlyVia(gn, nil, countsEqual) {
+					okAns = false
+				}
+			}
+			r4.Check(okAns && nAns > 0, f.Key+" answer-only-when-counts-equal", f.Decl.Pos(), "every non-nil answer is returned under len(ConvertedObjects) == requested", "an answer with converted objects can be returned although the number of objects differs from the number requested (the comparison does not guard the answer)")
 		}
 		if !found {
 			r4.Bad(f.Key+" count-check", f.Decl.Pos(), "no comparison of len(ConvertedObjects) with the requested count: a hook may return fewer objects than requested and still be answered with Success")
